@@ -1,4 +1,6 @@
 import SkoolVerif.Proofs.C10Defs
+import SkoolVerif.Proofs.TraceLoopEq
+import SkoolVerif.Proofs.RunLoop
 /-!
 # C10 — saving a snapshot mid-run and resuming from it is transparent
 
@@ -228,5 +230,131 @@ example : Saveable cfg48 #[] (cRun (cmioMode true) cfg48 0 bitWitness) ∧
 example : (cRun (cmioMode true) cfg48 1 (resume #[] .szx haltWitness)).s.t =
     (tsShift cfg48 (cRun (cmioMode true) cfg48 1 haltWitness) (-(haltWitness.s.t / cfg48.frame_duration))).s.t := by
   decide +kernel
+
+
+/-! ## the C trace loop is translated from source (`translate/cloop2lean.py`), and the hand model `TraceLoop.cIter` is its pass
+
+`CSimulator_trace` (both builds) is translated on every run into `Gen/CLoops/trace.lean` / `Gen/CCmioLoops/trace.lean`: the `while (1)`
+body as an iteration function (the macro `GET_OPCODE_FUNC` expanded; the `disassemble` / `trace` / `exec_map` callbacks recognised by
+exact text and turned into an output log, `draw_screen`'s result into an input stream), iterated with fuel.  The theorems below are about
+that translation; `RunLoop.traceLoop` / `RunLoop.iter` (`Proofs/RunLoopDefs.lean`) are the values it is proved to compute. -/
+
+/-- **`CSimulator_trace`, translated (plain build), with no `draw` callback**: from any in-range state, for every `start`/`stop` object
+(an address in 0..65535 when an integer), `max_operations`, `max_time` (below 2^63), `interrupts` and every fuel for which the clock stays
+below 2^63, it computes `RunLoop.traceLoop` of `Simulator`'s step (C06 `c_step_eq_python`): per pass one instruction, then
+`accept_interrupt` iff `interrupts && REG(IFF) && TIME % frame_duration < int_active`, `operations += 1`, then the stop conditions
+`max_operations`, `max_time`, `stop` in that order.  The callbacks `disassemble`, `trace`, `exec_map` influence neither the machine
+state nor the return value (the right-hand side does not mention them). -/
+theorem c_trace_loop_derived_from_source {μ : Type} [MemLike μ] [CellMem μ] (cfg : Cfg) (hcfg : CSimH.CfgRep cfg)
+    (hout : CSimH.OutOkAll μ cfg) (fuel : Nat) (start stop : PyObj) (maxOps maxTime : Int) (interrupts : Bool)
+    (exec_map keyboard disassemble trace : PyObj) (log0 : List (List Int)) (draws0 : List Int) (s : St μ) (h : RInv s)
+    (hstart : ∀ v, start = .int v → 0 ≤ v ∧ v < 65536) (hstop : ∀ v, stop = .int v → 0 ≤ v ∧ v < 65536)
+    (hmo : 0 ≤ maxOps ∧ maxOps < 9223372036854775808) (hmt : 0 ≤ maxTime ∧ maxTime < 9223372036854775808)
+    (ht : s.t + fuel * (maxDur + 19) < 9223372036854775808) :
+    CSimH.Loop.trace cfg fuel start stop maxOps maxTime interrupts PyObj.none exec_map keyboard disassemble trace log0 draws0 s =
+      RunLoop.traceRet (RunLoop.traceLoop RunLoop.simM interrupts cfg maxOps maxTime (RunLoop.objStop stop) fuel 0 (RunLoop.objStart start s)) :=
+  RunLoop.c_trace cfg hcfg hout fuel start stop maxOps maxTime interrupts exec_map keyboard disassemble trace log0 draws0 s h hstart hstop hmo hmt ht
+
+/-- the same for the `-DCONTENTION` build over `CMIOSimulator`'s step -/
+theorem c_cmio_trace_loop_derived_from_source {μ : Type} [MemLike μ] [CellMem μ] [PageStable μ] (cfg : Cfg) (hcfg : CSimH.CfgRep cfg)
+    (hout : CSimH.OutOkAll μ cfg) (fuel : Nat) (start stop : PyObj) (maxOps maxTime : Int) (interrupts : Bool)
+    (exec_map keyboard disassemble trace : PyObj) (log0 : List (List Int)) (draws0 : List Int) (s : St μ) (h : RInv s)
+    (hstart : ∀ v, start = .int v → 0 ≤ v ∧ v < 65536) (hstop : ∀ v, stop = .int v → 0 ≤ v ∧ v < 65536)
+    (hmo : 0 ≤ maxOps ∧ maxOps < 9223372036854775808) (hmt : 0 ≤ maxTime ∧ maxTime < 9223372036854775808)
+    (ht : s.t + fuel * (maxDurCmio + 19) < 9223372036854775808) :
+    CCmioH.Loop.trace cfg fuel start stop maxOps maxTime interrupts PyObj.none exec_map keyboard disassemble trace log0 draws0 s =
+      RunLoop.traceRet (RunLoop.traceLoop RunLoop.cmioM interrupts cfg maxOps maxTime (RunLoop.objStop stop) fuel 0 (RunLoop.objStart start s)) :=
+  RunLoop.c_cmio_trace cfg hcfg hout fuel start stop maxOps maxTime interrupts exec_map keyboard disassemble trace log0 draws0 s h hstart hstop hmo hmt ht
+
+/-- `trace -m n`, the stop condition the theorems of this file are about: the translated C loop makes exactly `n` passes and returns
+(1, n) — the shape of `cRun` (`n` applications of `cIter`). -/
+theorem c_trace_max_operations_is_n_passes {μ : Type} [MemLike μ] [CellMem μ] (cfg : Cfg) (hcfg : CSimH.CfgRep cfg) (hout : CSimH.OutOkAll μ cfg)
+    (n fuel : Nat) (hn : 0 < n) (hnf : n ≤ fuel) (start : PyObj) (interrupts : Bool) (exec_map keyboard disassemble trace : PyObj)
+    (log0 : List (List Int)) (draws0 : List Int) (s : St μ) (h : RInv s) (hstart : ∀ v, start = .int v → 0 ≤ v ∧ v < 65536)
+    (hn63 : (n : Int) < 9223372036854775808) (ht : s.t + fuel * (maxDur + 19) < 9223372036854775808) :
+    CSimH.Loop.trace cfg fuel start PyObj.none n 0 interrupts PyObj.none exec_map keyboard disassemble trace log0 draws0 s =
+      ((RunLoop.passN RunLoop.simM interrupts cfg n (RunLoop.objStart start s), (1, (n : Int))), true) :=
+  RunLoop.c_trace_max_operations cfg hcfg hout n fuel hn hnf start interrupts exec_map keyboard disassemble trace log0 draws0 s h hstart hn63 ht
+
+/-- **The hand model is the translated pass.**  One application of `cIter` (the model of the C trace loop all theorems above are about)
+is `RunLoop.iter` — the pass that the translated `CSimulator_trace`, `CSimulator_run` and `Simulator.run` bodies are proved to make
+(C06) — over the machine whose instruction is `tstep`, i.e. the generated `Sim.step`/`Cmio.step` wrapped in the tracer's port glue.  What
+remains hand-modelled in `cRun` is that glue (`Tracer.read_port`, `PagingTracer.write_port`: tied by correspondence), not the loop. -/
+theorem trace_model_pass_is_translated_pass {μ : Type} [MemLike μ] (mode : Mode μ) (cfg : Cfg) (ts : TS μ) :
+    cIter mode cfg ts = ⟨RunLoop.iter (RunLoop.glued mode ts.tr) mode.interrupts cfg ts.s, (tstep mode.step cfg ts).tr⟩ :=
+  RunLoop.cIter_eq_iter mode cfg ts
+
+/-! ### … and so is the Python loop of `Tracer.run` (`translate/pyloop2lean.py`, loop core: the `else` branch of
+`if hasattr(simulator, 'trace')`; prologue, C branch and epilogue of the method are checked by exact text) -/
+
+/-- **The Python trace loop, translated (no `draw` callback), computes `RunLoop.traceLoop` too** — with no range hypothesis on the state:
+`next_int` is a function of the clock (`RunLoop.sched_pass`, the invariant of `python_loop_eq_c_loop` on the translated text).  Final
+state, `operations`, `stop_cond`, "finished" flag. -/
+theorem python_trace_loop_derived_from_source {μ : Type} [MemLike μ] (cfg : Cfg) (hf : FrameOk cfg maxDur) (fuel : Nat) (start : Int)
+    (stop : Option Int) (maxOps maxTime : Int) (interrupts exec_map trace_line : Bool) (start_time : Int) (is128k : Bool)
+    (log0 : List (List Int)) (draws0 : List Bool) (s : St μ) :
+    (PyLoop.Sim.trace_run cfg fuel start stop maxOps maxTime interrupts false exec_map trace_line start_time is128k log0 draws0 s).1.1 =
+        (RunLoop.traceLoop RunLoop.simM interrupts cfg maxOps maxTime stop fuel 0 { s with pc := start }).1.1 ∧
+      (PyLoop.Sim.trace_run cfg fuel start stop maxOps maxTime interrupts false exec_map trace_line start_time is128k log0 draws0 s).1.2.operations =
+        (RunLoop.traceLoop RunLoop.simM interrupts cfg maxOps maxTime stop fuel 0 { s with pc := start }).1.2 ∧
+      (PyLoop.Sim.trace_run cfg fuel start stop maxOps maxTime interrupts false exec_map trace_line start_time is128k log0 draws0 s).1.2.stop_cond =
+        (RunLoop.traceLoop RunLoop.simM interrupts cfg maxOps maxTime stop fuel 0 { s with pc := start }).2.getD 0 ∧
+      (PyLoop.Sim.trace_run cfg fuel start stop maxOps maxTime interrupts false exec_map trace_line start_time is128k log0 draws0 s).2 =
+        (RunLoop.traceLoop RunLoop.simM interrupts cfg maxOps maxTime stop fuel 0 { s with pc := start }).2.isSome :=
+  RunLoop.py_trace cfg hf fuel start stop maxOps maxTime interrupts exec_map trace_line start_time is128k log0 draws0 s
+
+/-- **`python_loop_eq_c_loop`, on the translated loops.**  `Tracer.run`'s Python loop and `CSimulator_trace`, both translated from
+source, end in the same state, finish together, and report the same (stop condition, operations) — for every start address and optional
+stop address in 0..65535, every `max_operations` / `max_time` below 2^63, interrupts on or off, whatever the callbacks, from every
+in-range state, for every fuel for which the clock stays below 2^63.  Plain pair and contended pair. -/
+theorem translated_python_trace_loop_eq_translated_c_trace_loop {μ : Type} [MemLike μ] [CellMem μ] [PageStable μ] (cfg : Cfg)
+    (hcfg : CSimH.CfgRep cfg) (hf : FrameOk cfg maxDurCmio) (hout : CSimH.OutOkAll μ cfg) (fuel : Nat) (start : Int) (stop : Option Int)
+    (maxOps maxTime : Int) (interrupts : Bool) (emC kb dis tr : PyObj) (emP tl : Bool) (st0 : Int) (k128 : Bool)
+    (logC logP : List (List Int)) (drawsC : List Int) (drawsP : List Bool) (s : St μ) (h : RInv s)
+    (hstart : 0 ≤ start ∧ start < 65536) (hstop : ∀ v, stop = some v → 0 ≤ v ∧ v < 65536)
+    (hmo : 0 ≤ maxOps ∧ maxOps < 9223372036854775808) (hmt : 0 ≤ maxTime ∧ maxTime < 9223372036854775808)
+    (ht : s.t + fuel * (maxDurCmio + 19) < 9223372036854775808) :
+    ((CSimH.Loop.trace cfg fuel (.int start) (RunLoop.stopObj stop) maxOps maxTime interrupts PyObj.none emC kb dis tr logC drawsC s).1.1 =
+        (PyLoop.Sim.trace_run cfg fuel start stop maxOps maxTime interrupts false emP tl st0 k128 logP drawsP s).1.1 ∧
+      (CSimH.Loop.trace cfg fuel (.int start) (RunLoop.stopObj stop) maxOps maxTime interrupts PyObj.none emC kb dis tr logC drawsC s).2 =
+        (PyLoop.Sim.trace_run cfg fuel start stop maxOps maxTime interrupts false emP tl st0 k128 logP drawsP s).2) ∧
+    ((CCmioH.Loop.trace cfg fuel (.int start) (RunLoop.stopObj stop) maxOps maxTime interrupts PyObj.none emC kb dis tr logC drawsC s).1.1 =
+        (PyLoop.Cmio.trace_run cfg fuel start stop maxOps maxTime interrupts false emP tl st0 k128 logP drawsP s).1.1 ∧
+      (CCmioH.Loop.trace cfg fuel (.int start) (RunLoop.stopObj stop) maxOps maxTime interrupts PyObj.none emC kb dis tr logC drawsC s).2 =
+        (PyLoop.Cmio.trace_run cfg fuel start stop maxOps maxTime interrupts false emP tl st0 k128 logP drawsP s).2) := by
+  have hmd : maxDur = 23 := rfl
+  have hmc : maxDurCmio = 143 := rfl
+  have hfn : (0 : Int) ≤ fuel := Int.natCast_nonneg fuel
+  have ht' : s.t + fuel * (maxDur + 19) < 9223372036854775808 := by
+    rw [hmd]; rw [hmc] at ht
+    have : (fuel : Int) * (23 + 19) ≤ fuel * (143 + 19) := Int.mul_le_mul_of_nonneg_left (by decide) hfn
+    omega
+  have a := RunLoop.c_trace_eq_py_trace cfg hcfg (RunLoop.frameOk_of_cmio hf) hout fuel start stop maxOps maxTime interrupts emC kb dis tr emP tl st0 k128
+    logC logP drawsC drawsP s h hstart hstop hmo hmt ht'
+  have b := RunLoop.c_cmio_trace_eq_py_trace cfg hcfg hf hout fuel start stop maxOps maxTime interrupts emC kb dis tr emP tl st0 k128
+    logC logP drawsC drawsP s h hstart hstop hmo hmt ht
+  exact ⟨⟨a.1, a.2.1⟩, ⟨b.1, b.2.1⟩⟩
+
+/-- … including the return value `(stop_cond, operations)` that `trace.py` prints, whenever the loop has finished -/
+theorem translated_trace_loops_report_the_same {μ : Type} [MemLike μ] [CellMem μ] (cfg : Cfg) (hcfg : CSimH.CfgRep cfg) (hf : FrameOk cfg maxDur)
+    (hout : CSimH.OutOkAll μ cfg) (fuel : Nat) (start : Int) (stop : Option Int) (maxOps maxTime : Int) (interrupts : Bool)
+    (emC kb dis tr : PyObj) (emP tl : Bool) (st0 : Int) (k128 : Bool) (logC logP : List (List Int)) (drawsC : List Int) (drawsP : List Bool)
+    (s : St μ) (h : RInv s) (hstart : 0 ≤ start ∧ start < 65536) (hstop : ∀ v, stop = some v → 0 ≤ v ∧ v < 65536)
+    (hmo : 0 ≤ maxOps ∧ maxOps < 9223372036854775808) (hmt : 0 ≤ maxTime ∧ maxTime < 9223372036854775808)
+    (ht : s.t + fuel * (maxDur + 19) < 9223372036854775808)
+    (hdone : (CSimH.Loop.trace cfg fuel (.int start) (RunLoop.stopObj stop) maxOps maxTime interrupts PyObj.none emC kb dis tr logC drawsC s).2 = true) :
+    (CSimH.Loop.trace cfg fuel (.int start) (RunLoop.stopObj stop) maxOps maxTime interrupts PyObj.none emC kb dis tr logC drawsC s).1.2 =
+      ((PyLoop.Sim.trace_run cfg fuel start stop maxOps maxTime interrupts false emP tl st0 k128 logP drawsP s).1.2.stop_cond,
+       (PyLoop.Sim.trace_run cfg fuel start stop maxOps maxTime interrupts false emP tl st0 k128 logP drawsP s).1.2.operations) :=
+  (RunLoop.c_trace_eq_py_trace cfg hcfg hf hout fuel start stop maxOps maxTime interrupts emC kb dis tr emP tl st0 k128
+    logC logP drawsC drawsP s h hstart hstop hmo hmt ht).2.2 hdone
+
+/-- non-vacuity: the translated loop on the all-zero 128K state (NOPs): `-m 3` ends at PC 3 after 12 T-states and returns (1, 3);
+with a stop address it returns (3, operations) -/
+theorem c_trace_examples :
+    (CSimH.Loop.trace RunLoop.witCfg 10 PyObj.none PyObj.none 3 0 false PyObj.none PyObj.none PyObj.none PyObj.none PyObj.none [] [] RunLoop.wit).1.2 = (1, 3) ∧
+    (CSimH.Loop.trace RunLoop.witCfg 10 PyObj.none PyObj.none 3 0 false PyObj.none PyObj.none PyObj.none PyObj.none PyObj.none [] [] RunLoop.wit).1.1.t = 12 ∧
+    (CSimH.Loop.trace RunLoop.witCfg 10 (PyObj.int 5) (PyObj.int 7) 0 0 false PyObj.none PyObj.none PyObj.none PyObj.none PyObj.none [] [] RunLoop.wit).1.2 = (3, 2) := by
+  refine ⟨?_, ?_, ?_⟩ <;> decide +kernel
 
 end C10
